@@ -21,7 +21,7 @@ extern "C" {
 namespace {
 
 enum { OP_FILE = 1, OP_INIT, OP_INIT_COPY, OP_INIT_COPY_CURSOR, OP_APPEND_DYN, OP_APPEND_BYTE_DYN, OP_RESERVE, OP_RESERVE_REL, OP_RESERVE_SMART,
-       OP_RESERVE_SMART_REL, OP_CAT, OP_RESET, OP_SECURE_ZERO, OP_CLEAN_UP, OP_SELF_APPEND, OP_APPEND_STATIC, OP_INIT_CACHE };
+       OP_RESERVE_SMART_REL, OP_CAT, OP_RESET, OP_SECURE_ZERO, OP_CLEAN_UP, OP_SELF_APPEND, OP_APPEND_STATIC, OP_INIT_CACHE, OP_APPEND_ADJ };
 
 struct Rel { size_t size; bool zero; };
 struct Ctx {
@@ -287,6 +287,31 @@ void run_growth(Ctx &c) {
                 }
                 break;
             }
+            case OP_APPEND_ADJ: {
+                // The source is a different object that happens to start on the first byte behind the destination's block (an everyday
+                // situation with allocators that pack blocks back to back): it is not an alias of the destination.
+                if (!M.buf.buffer || M.buf.capacity == 0) break;
+                const size_t n = 16;
+                size_t room = M.buf.capacity - M.buf.len;
+                if (room >= n) { // fill the buffer up first so that the append below has to grow it
+                    std::vector<uint8_t> fill = gen_bytes((uint64_t)op.b, room - 5);
+                    struct aws_byte_cursor fc = aws_byte_cursor_from_array(fill.data(), fill.size());
+                    if (aws_byte_buf_append(&M.buf, &fc)) sim::violation("c01:append", "append of %zu bytes into %zu free bytes failed", fill.size(), room);
+                    M.m.insert(M.m.end(), fill.begin(), fill.end());
+                }
+                uint8_t *src = simalloc::lend_tail(M.buf.buffer, n);
+                if (!src) break;
+                if (src != M.buf.buffer + M.buf.capacity) sim::violation("c01:harness", "neighbouring object is not adjacent");
+                std::vector<uint8_t> data = gen_bytes((uint64_t)op.b ^ 0x5A5A, n);
+                memcpy(src, data.data(), n);
+                struct aws_byte_cursor cur = aws_byte_cursor_from_array(src, n);
+                if (secure) simalloc::expect_zero_on_release(M.buf.buffer);
+                int rc = secure ? aws_byte_buf_append_dynamic_secure(&M.buf, &cur) : aws_byte_buf_append_dynamic(&M.buf, &cur);
+                if (rc) sim::violation("c01:append", "append_dynamic of a neighbouring object failed");
+                M.m.insert(M.m.end(), data.begin(), data.end());
+                sim::probe("append_of_an_object_adjacent_to_the_destination_block");
+                break;
+            }
             case OP_INIT_COPY: {
                 struct aws_byte_buf copy;
                 if (aws_byte_buf_init_copy(&copy, c.alloc, &M.buf)) sim::violation("c01:init", "init_copy failed");
@@ -538,7 +563,8 @@ void gen(uint64_t seed, int tier, sim::Plan &p) {
             else if (k < 40) { op.kind = OP_APPEND_DYN; op.a = r.pick(sz); op.b = (int64_t)(r.next() >> 2); op.d = r.chance(0.4); }
             else if (k < 47) { op.kind = OP_SELF_APPEND; op.a = r.range(0, 1000); op.b = r.range(0, 1000); op.d = r.chance(0.4); }
             else if (k < 55) { op.kind = OP_APPEND_BYTE_DYN; op.a = r.range(0, 255); op.d = r.chance(0.4); }
-            else if (k < 60) { op.kind = OP_APPEND_STATIC; op.a = r.pick(sz); op.b = (int64_t)(r.next() >> 2); }
+            else if (k < 58) { op.kind = OP_APPEND_STATIC; op.a = r.pick(sz); op.b = (int64_t)(r.next() >> 2); }
+            else if (k < 60) { op.kind = OP_APPEND_ADJ; op.b = (int64_t)(r.next() >> 2); op.d = r.chance(0.4); }
             else if (k < 67) { op.kind = OP_RESERVE; op.a = r.pick(sz); }
             else if (k < 74) { op.kind = OP_RESERVE_REL; op.a = r.pick(sz); op.b = r.chance(0.2); }
             else if (k < 79) { op.kind = OP_RESERVE_SMART; op.a = r.pick(sz); }
@@ -573,6 +599,7 @@ std::string op_text(const sim::Op &op) {
         case OP_INIT: snprintf(b, sizeof b, "init(capacity %lld)", (long long)op.a); break;
         case OP_INIT_COPY: snprintf(b, sizeof b, "init_copy(); clean_up(original)"); break;
         case OP_INIT_COPY_CURSOR: snprintf(b, sizeof b, "init_copy_from_cursor(%lld bytes)", (long long)op.a); break;
+        case OP_APPEND_ADJ: snprintf(b, sizeof b, "append_dynamic%s(16 bytes of an object that starts right behind the destination's block)", op.d ? "_secure" : ""); break;
         case OP_INIT_CACHE: snprintf(b, sizeof b, "init_cache_and_update_cursors(%lld cursors)%s", (long long)(op.a % 41), op.d ? " [one length makes the total overflow]" : ""); break;
         case OP_APPEND_DYN: snprintf(b, sizeof b, "append_dynamic%s(%lld bytes)", op.d ? "_secure" : "", (long long)op.a); break;
         case OP_SELF_APPEND: snprintf(b, sizeof b, "append_dynamic%s(cursor into the destination itself)", op.d ? "_secure" : ""); break;
